@@ -131,9 +131,9 @@ Definition defs_node : node :=
      marker_node "big_open_circle" "0 0 8 8" "4" "4" (marker_circle "3" "bg_filled")].
 
 (** ** the document *)
-Definition canvas_size (st : settings) (cells : list (cell * Z)) : Q * Q :=
-  let br := cells_max cells in
+Definition canvas_of (st : settings) (br : cell) : Q * Q :=
   (Qred (scale st * inject_Z (cx br + 2)), Qred (scale st * inject_Z (cy br + 2) * 2)).
+Definition canvas_size (st : settings) (cells : list (cell * Z)) : Q * Q := canvas_of st (cells_max cells).
 
 Definition backdrop_node (w h : Q) : node :=
   Elem (zs "rect") [sattr "class" "backdrop"; sattr "x" "0"; sattr "y" "0"; num "width" w; num "height" h] [].
@@ -145,17 +145,24 @@ Definition fragments_of (cb : cellbuffer) : res (list fragment * list (list frag
   Ok (map fs_frag accepted ++ map (fun e => fs_frag (escaped_fragspan e)) (cb_escaped cb),
       map (map fs_frag) groups).
 
-Definition doc_of (cb : cellbuffer) (st : settings) (w h : Q) : res node :=
-  do r <- fragments_of cb;
-  let '(frags, groups) := r in
+(** everything after endorsement: from the fragments handed to the tree pass, the contact
+    groups and the legend's CSS text to the document ([get_node_override_size] without its
+    first line) *)
+Definition doc_emit (frags : list fragment) (groups : list (list fragment)) (legend : list Z)
+    (st : settings) (w h : Q) : res node :=
   do fnodes <- fragment_nodes (scale st) frags;
   let gnodes := map (fun g => Elem (zs "g") [] (map (fragment_node (scale st)) g)) groups in
   Ok (Elem (zs "svg")
         [sattr "xmlns" "http://www.w3.org/2000/svg"; num "width" w; num "height" h; sattr "class" "svgbob"]
-        ((if include_styles st then [style_node st (legend_css (cb_css cb))] else [])
+        ((if include_styles st then [style_node st legend] else [])
          ++ (if include_defs st then [defs_node] else [])
          ++ (if include_backdrop st then [backdrop_node w h] else [])
          ++ fnodes ++ gnodes)).
+
+Definition doc_of (cb : cellbuffer) (st : settings) (w h : Q) : res node :=
+  do r <- fragments_of cb;
+  let '(frags, groups) := r in
+  doc_emit frags groups (legend_css (cb_css cb)) st w h.
 
 Definition doc (input : list Z) (st : settings) : res node :=
   do cb <- cellbuffer_from input;
